@@ -43,8 +43,7 @@ fn ns(d: Duration) -> i128 {
     d.as_nanos() as i128
 }
 
-fn run_one(ctx: &RunCtx, tier: Tier) -> RunOut {
-    let max_len = tier.pick(3usize, 4usize);
+fn run_one(ctx: &RunCtx, max_len: usize) -> RunOut {
     let mut setup = Setup::new(Mode::Start);
     setup.apps = vec![app("app-SYS", [1, 0, 0, 0]), app("app-B", [2, 0, 0, 0])];
     setup.os_version = "1.0.0.0".into();
@@ -347,15 +346,22 @@ fn rebuild_metrics(setup: &Setup, snap: &std::collections::BTreeMap<String, StVa
 }
 
 fn parts(tier: Tier) -> Vec<PartDef> {
-    vec![PartDef::new(
-        "attempt-histories",
-        match tier {
-            Tier::Quick => Cfg::new("C18/attempt-histories"),
-            Tier::Thorough => Cfg::new("C18/attempt-histories").dev(4).free(&["step"]),
-        },
-        json!({"max_history_length": tier.pick(3, 4), "plans": 2, "offered_configs": 3, "per_app_results": 3, "manifest": 2, "restart_os_version": 2, "restart_clocks": 3,
-               "crash_point": "first reboot question after every clean install",
-               "exploration": tier.pick("full product", "step kinds exhaustive; at most 4 non-default parameter choices per history")}),
-        move |ctx| run_one(ctx, tier),
-    )]
+    let mk = |name: &str, len: usize, dev: Option<usize>| {
+        let cfg = match dev {
+            None => Cfg::new(&format!("C18/{name}")),
+            Some(d) => Cfg::new(&format!("C18/{name}")).dev(d).free(&["step"]),
+        };
+        PartDef::new(
+            name,
+            cfg,
+            json!({"max_history_length": len, "plans": 2, "offered_configs": 3, "per_app_results": 3, "manifest": 2, "restart_os_version": 2, "restart_clocks": 3,
+                   "crash_point": "first reboot question after every clean install",
+                   "exploration": match dev { None => "full product".to_string(), Some(d) => format!("step kinds exhaustive; at most {d} non-default parameter choices per history") }}),
+            move |ctx| run_one(ctx, len),
+        )
+    };
+    match tier {
+        Tier::Quick => vec![mk("attempt-histories", 3, None)],
+        Tier::Thorough => vec![mk("attempt-histories-len4-dev5", 4, Some(5)), mk("attempt-histories-len5-dev3", 5, Some(3))],
+    }
 }
